@@ -421,10 +421,10 @@ def rw_generic(s, R, scalar_types=()):
               lambda m: '(' + LIMITS[m.group(2)][1 if m.group(3) == 'max' else 0] + ')', s)
     s = rw_throw(s, R)
     s = rw_scalar_ctor(s, R, scalar_types)
-    s = R.sub('auto', r'\bconst\s+auto\s*\*\s*(?=\w)', '__auto_type ', s)   # pointer to const: the pointee type comes from the initialiser
-    s = R.sub('auto', r'\bauto\s*\*\s*(?=\w)', '__auto_type ', s)
-    s = R.sub('auto', r'\bconst\s+auto\s*&?\s*(?=\w)', 'const __auto_type ', s)
-    s = R.sub('auto', r'\bauto\s*&{0,2}\s*(?=\w)', '__auto_type ', s)
+    s = R.sub('auto', r'\bconst\s+auto\b\s*\*\s*(?=\w)', '__auto_type ', s)   # pointer to const: the pointee type comes from the initialiser
+    s = R.sub('auto', r'\bauto\b\s*\*\s*(?=\w)', '__auto_type ', s)
+    s = R.sub('auto', r'\bconst\s+auto\b\s*&?\s*(?=\w)', 'const __auto_type ', s)
+    s = R.sub('auto', r'\bauto\b\s*&{0,2}\s*(?=\w)', '__auto_type ', s)
     s = R.sub('drop_kw', r'\b(inline|constexpr|noexcept|final|override|explicit)\b', '', s)
     s = R.sub('drop_attr', r'\[\[[^\]]*\]\]', '', s)
     s = R.sub('namespace', NS, '', s)
@@ -723,7 +723,7 @@ class Unit:
 
     def __init__(self, file, name, cls=None, cname=None, sig=None, nth=0, bind=None, method=None,
                  selftype=None, pre=(), post=(), ret=None, params=None, extra_members=(), refs_keep=(),
-                 maythrow=False, scalar_types=(), static=False, drop_const_self=False, block=None, objs=None, retval=None, witness=(), strs=(), base_init_ok=()):
+                 maythrow=False, scalar_types=(), static=False, drop_const_self=False, block=None, objs=None, retval=None, witness=(), strs=(), base_init_ok=(), enums=(), stub_siblings=None):
         self.file = file
         self.name = name
         self.cls = cls
@@ -746,6 +746,8 @@ class Unit:
         self.retval = retval
         self.strs = list(strs)
         self.base_init_ok = list(base_init_ok)
+        self.enums = list(enums)
+        self.stub_siblings = stub_siblings or {}   # unqualified calls to methods of the same class that are contract stubs
         self.witness = list(witness)   # [(expr of type char*, length expr, K)]: first K bytes copied to a ghost array so traces show them
 
 
@@ -881,6 +883,9 @@ def extract(repo, u, R=None, src_cache=None, siblings=None):
         cparams, refs = parse_params(f['params'], R, u.refs_keep)
         refpos = list(parse_params.last_refpos)
         cparams = [rw_generic(p, Rules()).strip() for p in cparams]
+    for en in u.enums:
+        body, n = re.subn(r'(?:\b\w+::)*\b' + re.escape(en) + r'::(\w+)', en + r'_\1', body)
+        R.hit('enumerator', n)
     body = rw_ref_locals(body, R)
     body = rw_assert(body, R, where)
     body = rw_generic(body, R, u.scalar_types)
@@ -891,7 +896,7 @@ def extract(repo, u, R=None, src_cache=None, siblings=None):
     if refs:
         body = rw_refparam(body, R, refs)
     if u.method:
-        for nm, cn in (siblings or {}).items():
+        for nm, cn in list((siblings or {}).items()) + list(u.stub_siblings.items()):
             body, n = re.subn(r'(?<![\w.>:])' + re.escape(nm) + r'\s*\(\s*\)', cn + '(self)', body)
             R.hit('sibling_method_call', n)
             body, n = re.subn(r'(?<![\w.>:])' + re.escape(nm) + r'\s*\((?!self\))', cn + '(self, ', body)
@@ -992,7 +997,7 @@ def extract_enum(repo, file, name, prefix=None):
 def extract_const(repo, file, name, ctype=None):
     """`constexpr T name = expr;` -> `static const T name = expr;`"""
     src = strip_comments(open(repo + '/' + file).read())
-    m = re.search(r'\bconstexpr\s+(?:const\s+)?([\w:]+(?:\s+[\w:]+)*?)\s+' + re.escape(name) + r'\s*=\s*([^;]+);', src)
+    m = re.search(r'\b(?:constexpr|const)\s+(?:const\s+)?([\w:]+(?:\s+[\w:]+)*?)\s+' + re.escape(name) + r'\s*=\s*([^;]+);', src)
     if not m:
         raise ExtractError('constant not found: ' + name)
     return 'static const %s %s = %s;\n' % (ctype or rw_generic(m.group(1), Rules()).strip(), name, rw_generic(' '.join(m.group(2).split()), Rules()))
@@ -1017,3 +1022,13 @@ def rw_ret_ref_calls(body, R, names):
             pos = m.start() + 2 + len(fn) + 1
             R.hit('reference_returning_call')
     return body
+
+
+def extract_anon_enum_const(repo, file, name):
+    """enumerator of an anonymous `enum : T { name = value }` -> #define name ((T)(value))"""
+    src = preprocess(strip_comments(open(repo + '/' + file).read()))
+    m = re.search(r'\benum\s*(?::\s*([\w: ]+?))?\s*\{[^{}]*\b' + re.escape(name) + r'\s*=\s*([^,}]+)', src)
+    if not m:
+        raise ExtractError('enumerator not found: ' + name)
+    T = rw_generic(m.group(1), Rules()).strip() if m.group(1) else 'int'
+    return '#define %s ((%s)(%s))\n' % (name, T, ' '.join(m.group(2).split()))
